@@ -71,6 +71,9 @@ func harnessOverlay(repoDir, harnessRootList string) (map[string][]byte, []strin
 		}
 		files = append(files, fs...)
 	}
+	if err == nil {
+		err = applyInstrumentation(repoDir, ov)
+	}
 	return ov, files, err
 }
 
